@@ -161,6 +161,52 @@ def classify_seek(e, exp, backend):
     return {"kind": "seek-mismatch", "store": store, "backend": backend}
 
 
+def judge_chunks(ctx, module, cfg, events, first, size=60000):
+    """TLC judges the trace in chunks cut at history boundaries (bounded memory, three JVMs at a time);
+    line numbers of the returned failure records refer to the whole trace."""
+    cuts = [0]
+    for i, e in enumerate(events):
+        if e["event"] == first and i - cuts[-1] >= size:
+            cuts.append(i)
+    cuts.append(len(events))
+    chunks = [(a, b) for a, b in zip(cuts, cuts[1:]) if b > a]
+
+    # concurrent judges need a scratch copy and a cfg of their own each (the runner derives the scratch directory from the
+    # subdir name and TLC's metadir from the cfg name): "kvstore/." names the same directory, Trace_KV_<j>.cfg are copies
+    par = 3 if all(os.path.exists(os.path.join(vlib.VERIF, "spec", SUB, cfg.replace(".cfg", "_%d.cfg" % j))) for j in (1, 2)) else 1
+    slots = queue.Queue()
+    for j in range(par):
+        slots.put(j)
+
+    def one(n, a, b):
+        path = os.path.join(ctx.work, "chunk-%s-%d.ndjson" % (module, n))
+        vlib.write_ndjson(path, events[a:b])
+        j = slots.get()
+        try:
+            fs = ctx.trace_judge(SUB + "/." * j, module, cfg if j == 0 else cfg.replace(".cfg", "_%d.cfg" % j), path, timeout=3000)
+        finally:
+            slots.put(j)
+        os.remove(path)
+        for f in fs:
+            f["line"] += a
+        return fs
+
+    fails = []
+    with concurrent.futures.ThreadPoolExecutor(max_workers=par) as ex:
+        futs = [ex.submit(one, n, a, b) for n, (a, b) in enumerate(chunks)]
+        errs = []
+        for fu in futs:
+            try:
+                fails += fu.result()
+            except Exception as e:
+                errs.append(e)
+        if errs:
+            raise errs[0]
+    return fails
+
+
+WRITE_EVENTS = ("init", "push", "drop", "put", "del", "batch", "persist", "seekgc")
+
 reconfirm = {}
 
 
